@@ -150,6 +150,10 @@ def run(ck):
     add_case("reserved/preprocessor_view'", MIN_B2[1], b2[1])
     judge(ck, "sweep.variable_domain", "variable named preprocessor_view", MIN_B2[0], MIN_B2[1], b2[0], b2[1], reserved=True)
 
+    # sequences of values that are not JSON (unquoted YAML dates ...): outside the model's JSON domain, so the direct
+    # oracle alone -- every single-element change of the domain changes all three identities
+    evaluations += nonjson_sequence_oracle(ck)
+
     per_shard = 60
     shards, spans = [], []
     for i in range(0, len(lits), per_shard):
@@ -186,9 +190,60 @@ def run(ck):
     ck.log("mutations: %s; model cases %d/%d agree" % (json.dumps(per_op), agreed, len(lits)))
 
 
+def _ids(nodes):
+    from semantiva.inspection import build_inspection_payload
+    import copy
+    p = build_inspection_payload(copy.deepcopy(nodes))
+    return (p["identity"]["semantic_id"], p["identity"]["config_id"],
+            tuple(n.get("node_semantic_id") for n in p["pipeline_spec_canonical"]["nodes"]))
+
+
+def nonjson_sequence_oracle(ck):
+    import datetime
+    n = 0
+    families = {
+        "date": ([datetime.date(2024, 1, d) for d in range(1, 10)], datetime.date(2023, 12, 31)),
+        "complex": ([complex(i, 1) for i in range(9)], complex(0, -7)),
+        "bytes": ([bytes([65 + i]) for i in range(9)], b"zz"),
+        "mixed-with-date": ([1.0, 2.0, 3.0, datetime.date(2024, 5, 5), 4.0, 5.0, 6.0, 7.0], -1.0),
+    }
+    for fam, (vals, other) in families.items():
+        for length in (len(vals), 3):
+            base_vals = vals[:length]
+            base = [{"processor": "FloatValueDataSource",
+                     "derive": {"parameter_sweep": {"parameters": {"value": "t"}, "variables": {"t": list(base_vals)},
+                                                    "collection": "FloatDataCollection"}}}]
+            try:
+                a = _ids(base)
+            except Exception:  # noqa - this family of values is not accepted at inspection
+                continue
+            n += 1
+            for i in range(length):
+                mv = list(base_vals)
+                mv[i] = other
+                mut = [{"processor": "FloatValueDataSource",
+                        "derive": {"parameter_sweep": {"parameters": {"value": "t"}, "variables": {"t": mv}, "collection": "FloatDataCollection"}}}]
+                try:
+                    b = _ids(mut)
+                except Exception:  # noqa
+                    continue
+                n += 1
+                same = [nm for nm, x, y in zip(("semantic_id", "config_id", "node_semantic_id"), a, b) if x == y]
+                if same:
+                    ck.fail_input("C05:sweep.variable_domain:non-json-sequence-element-change-keeps-ids",
+                                  "changing element %d of a %d-element sequence of %s values leaves %s unchanged" % (i, length, fam, ", ".join(same)),
+                                  {"kind": "nonjson-sequence", "family": fam, "values": [repr(v) for v in base_vals], "position": i,
+                                   "replacement": repr(other), "unchanged": same})
+    return n
+
+
 def replay(obj):
     G.setup()
     r = obj["replay"]
+    if r.get("kind") == "nonjson-sequence":
+        print(json.dumps(r, indent=1))
+        print("re-run: ./check C05 quick (the non-JSON sequence oracle is deterministic)")
+        return 1
     a, b = G.observe(r["nodes"], runs=0), G.observe(r.get("mutated", r["nodes"]), runs=0)
     print("base   :", json.dumps(r["nodes"]))
     print("mutated:", json.dumps(r.get("mutated")), "| operator:", r.get("operator"), r.get("position"))
